@@ -997,6 +997,23 @@ func (fx *FuncCtx) sortOf(t types.Type) Sort {
 	return s
 }
 
+var ridSignFact = regexp.MustCompile(`^\(>= \S+\$rid 0\)$`)
+
+// freshValAny is freshVal without the assumption that slices live in caller-made regions
+// (region id >= 0): a loop-carried local or a callee's result may hold a slice of a region
+// allocated during this call (negative id). Assuming >= 0 there made such paths contradictory
+// (Romberg swaps two halves of a fresh work slice in a loop; reported by a contract-writing agent).
+func (fx *FuncCtx) freshValAny(base string, t types.Type) (Val, []Term) {
+	v, facts := fx.freshVal(base, t)
+	out := facts[:0]
+	for _, f := range facts {
+		if !ridSignFact.MatchString(f.S) {
+			out = append(out, f)
+		}
+	}
+	return v, out
+}
+
 // freshVal makes an unconstrained value of type t, with its typing facts.
 func (fx *FuncCtx) freshVal(base string, t types.Type) (Val, []Term) {
 	var facts []Term
